@@ -342,6 +342,7 @@ Lemma good_emit sp bytes : GM (emit sp bytes).
 Proof.
   intro c. unfold emit. destruct (current_segment c); [|apply good_refl].
   destruct (seg_get (segments c) i); [|exact I]. destruct (target_pc s); [|exact I].
+  destruct (two64 <=? z + Z.of_nat (length bytes))%Z; [exact I|].
   destruct (seg_emit s bytes); [|apply good_refl|exact I].
   eapply good_frame with (new := [_]); try reflexivity. constructor; [exact I|constructor].
 Qed.
